@@ -1415,15 +1415,18 @@ func (c *connection) Join(conn net.Conn, id string, dial gen.NetworkDial, tail [
 		if lib.Trace() {
 			defer c.log.Trace("connection %s left the pool", conn.RemoteAddr().String())
 		}
+		redialed := false
 
 	re: // reconnected
 		if lib.Trace() {
 			c.log.Trace("joined new connection %s to the pool", conn.RemoteAddr().String())
 		}
 
-		c.serve(pi.connection, tail)
+		received := c.serve(pi.connection, tail)
 
-		if dial != nil {
+		// a re-dialed link that was closed by the peer before it carried a single packet
+		// means the peer does not have this connection anymore. do not dial it again
+		if dial != nil && (redialed == false || received > 0) {
 			pool_dsn := []string{}
 			pool_dsn = append(pool_dsn, c.pool_dsn...)
 			rand.Shuffle(len(pool_dsn), func(i, j int) {
@@ -1441,6 +1444,7 @@ func (c *connection) Join(conn net.Conn, id string, dial gen.NetworkDial, tail [
 				}
 				pi.connection = nc
 				tail = t
+				redialed = true
 
 				goto re
 			}
@@ -1482,7 +1486,8 @@ func (c *connection) Terminate(reason error) {
 	}
 }
 
-func (c *connection) serve(conn net.Conn, tail []byte) {
+// serve handles the incoming packets of one pooled link; returns the number of packets it received
+func (c *connection) serve(conn net.Conn, tail []byte) int {
 
 	recvN := 0
 	recvNQ := len(c.recvQueues)
@@ -1502,21 +1507,21 @@ func (c *connection) serve(conn net.Conn, tail []byte) {
 			}
 			lib.ReleaseBuffer(buf)
 			conn.Close()
-			return
+			return recvN
 		}
 
 		if buf.B[0] != protoMagic {
 			c.log.Error("recevied malformed packet from %s (incorrect proto)", conn.RemoteAddr())
 			lib.ReleaseBuffer(buf)
 			conn.Close()
-			return
+			return recvN
 		}
 
 		if buf.B[1] != protoVersion {
 			c.log.Error("recevied malformed packet from %s (incorrect proto version)", conn.RemoteAddr())
 			lib.ReleaseBuffer(buf)
 			conn.Close()
-			return
+			return recvN
 		}
 
 		recvN++
